@@ -304,6 +304,7 @@ PAD = {pad!r}
 
 
 def f(x, pad=0):
+    # résultat déterministe -- non-ASCII source: the recorded code holds multi-byte characters
     CALLS.append(("f", x, pad))
     return ("v{v}", "f", x, "p" * pad, PAD)
 
@@ -335,7 +336,7 @@ def write_module(root, version, pad="", name="vmod"):
     d = os.path.join(root, "src")
     os.makedirs(d, exist_ok=True)
     p = os.path.join(d, name + ".py")
-    with _open(p, "w") as fh:
+    with _open(p, "w", encoding="utf-8") as fh:
         fh.write(SRC_TEMPLATE.format(v=version, pad=pad))
     return p
 
